@@ -22,7 +22,7 @@ theorem Preserved.of_iff {I J : World → Prop} (h : ∀ w, I w ↔ J w) (hI : P
     obtain ⟨w0, h0, hb, e⟩ := hfr
     exact (h _).1 (hI.resume w p f sig hv ⟨w0, (h _).2 h0, hb, e⟩ ((h _).2 hj))
   finish w p v st hj := (h _).1 (hI.finish w p v st ((h _).2 hj))
-  clear w p f hf hb hj := (h _).1 (hI.clear w p f hf hb ((h _).2 hj))
+  clear w p f hf hb hp hj := (h _).1 (hI.clear w p f hf hb hp ((h _).2 hj))
 
 theorem HistInv.preserved : Preserved HistInv := by
   refine Preserved.of_iff ?_
